@@ -83,6 +83,8 @@ def _configs(tier):
     for w in range(1, 5 if T else 4):
         for bit in range(w):
             A({'block': 'Bit', 'w': w, 'bit': bit})
+        for bit in (w, w + 1):
+            A({'block': 'Bit', 'w': w, 'bit': bit})          # a position above the most significant bit reads 0
         for low in range(w):
             for high in range(low, w):
                 A({'block': 'Range', 'w': w, 'high': high, 'low': low})
@@ -138,6 +140,12 @@ def _configs(tier):
                         A({'block': 'Helper', 'fn': fn, 'w': w, 'up': up, 'down': down})
             else:
                 A({'block': 'Helper', 'fn': fn, 'w': w})
+    # two constant-comparison helpers of ONE LogicHelper on the same wire with the same constant, every ordered pair
+    akf = sorted(fn for fn, (sig, _) in logic.HELPERS.items() if sig == 'ak')
+    for f1, f2 in itertools.permutations(akf, 2):
+        for w in ((2, 3) if T else (2,)):
+            for k in range(0, 1 << (w - 1)):
+                A({'block': 'HelperPair', 'fn1': f1, 'fn2': f2, 'w': w, 'k': k})
     for w in range(1, 5 if T else 4):
         # negative constants denote their two's-complement pattern (the convention of Wire.put and Constant)
         for v in list(range(1 << w)) + [-1, -(1 << (w - 1))] + ([-2] if w > 1 else []):
@@ -161,6 +169,8 @@ def _configs(tier):
     for n in (4, 5, 6):
         A({'block': 'AnyEqual', 'n': n, 'w': 2})
     A({'block': 'AnyEqual', 'n': 5, 'w': 3})
+    for n in (11, 12, 13):
+        A({'block': 'AnyEqual', 'n': n, 'w': 1})
     for b in ('And', 'Or', 'Xor', 'Nor'):
         for n in (6, 7, 9, 17):
             A({'block': b, 'n': n, 'w': 1})
@@ -231,6 +241,8 @@ def _inbits(d):
         return n + w
     if b == 'SelectDefault':
         return n * (w + 1) + w
+    if b == 'HelperPair':
+        return w
     if b == 'Helper':
         sig = logic.HELPERS[d['fn']][0]
         return {'a': w, 'ak': w, 'aud': w, 'ab': 2 * w, 'abc': 3 * w, 'abcd': 4 * w, 'sab': 2 * w + 1, 'list': n * w}[sig]
@@ -269,6 +281,20 @@ def build(d):
 
     w = d.get('w', 1)
     n = d.get('n', 1)
+    if b == 'HelperPair':
+        from py4hw.helper import LogicHelper
+        hlp = LogicHelper(hw)
+        a = I('a', w)
+        try:
+            r1 = getattr(hlp, d['fn1'])(a, d['k'])
+            r2 = getattr(hlp, d['fn2'])(a, d['k'])
+        except Exception as e:
+            core.reset_prepared()
+            raise Rejected('%s: %s' % (type(e).__name__, e))
+        d['_rw1'], d['_rw2'] = r1.getWidth(), r2.getWidth()
+        outs.append(('r1', r1))
+        outs.append(('r2', r2))
+        return hw, ins, outs
     if b == 'Helper':
         # the same functionality reached through the convenience functions of py4hw.helper.LogicHelper
         from py4hw.helper import LogicHelper
